@@ -61,7 +61,11 @@ def _session(ops):
     for op in ops:
         k = op[0]
         try:
-            if k == 'feed':
+            if k == 'pause':
+                import time as _t
+                _t.sleep(op[1])              # real time passes between two feeding calls: it must not matter
+                lines.append(None)
+            elif k == 'feed':
                 try:
                     p.feed(_as(op[1], op[2] if len(op) > 2 else 'list'))
                     fed.extend(op[1])
@@ -196,6 +200,8 @@ def _chunk(hs):
 
 def enc_op(op):
     k = op[0]
+    if k == 'pause':
+        return None
     if k == 'feed':
         return 'pfeed ' + ' '.join(map(str, op[1]))
     if k == 'feedbyte':
@@ -305,7 +311,11 @@ def gen(ck):
         stream = parsing.random_stream(rng, rng.randint(1, 40), rng.choice([0.2, 0.4]))
         hs.append([('feed', stream, rng.choice(['bytes', 'bytearray', 'tuple'])), ('pending',)])
     # many messages pending at once: nothing may be dropped however long nobody retrieves
-    for n in ([1025, 1500] if not thorough else [1024, 1025, 2048, 5000]):
+    # a real pause (longer than any plausible stale-data timeout) inside a message, through feed() and feed_byte()
+    hs.append([('feed', [0x90, 60], 'list'), ('pause', 2.3), ('feed', [64, 0xf0, 1], 'bytes'), ('pause', 1.2), ('feedbyte', 2),
+               ('feedbyte', 0xf7), ('pending',), ('get',)])
+    hs.append([('pput', [0xe0, 1], 'list'), ('pause', 2.3), ('pput', [2, 0xf0], 'list'), ('pause', 1.1), ('pput', [9, 0xf7], 'bytes'), ('piterpoll',)])
+    for n in ([1025, 1500, 70000] if not thorough else [1024, 1025, 2048, 5000, 300000]):
         hs.append([('feed', [0xf8] * n, 'list'), ('pending',), ('get',)])
         hs.append([('feed', [0x90, 1, 2] * n, 'bytes'), ('pending',), ('get',)])
         hs.append([('pput', [0xf8] * n, 'list'), ('ppoll',)])
@@ -351,14 +361,18 @@ def run(ck):
         for o in h:
             ck.count('op:' + o[0])
         for l in lines:
-            if l.startswith('err'):
+            if l is not None and l.startswith('err'):
                 ck.count('impl:' + l)
         if fail:
             ck.oracle_fail({'ops': h}, fail)
     for h, lines in flat:
+        if sum(len(o[1]) for o in h if o[0] in ('feed', 'pput')) > 30000:
+            continue            # very long histories: oracle only (the model is not built for speed)
         reqs.append('preset')
         impl.append('ok')
         for o, l in zip(h, lines):
+            if enc_op(o) is None:
+                continue
             reqs.append(enc_op(o))
             impl.append(l)
     for h in (hs[3], hs[len(hs) // 2], hs[-1]):
